@@ -1,13 +1,13 @@
 package main
 
 import (
-	"strconv"
 	"bytes"
 	"encoding/binary"
 	"errors"
 	"fmt"
 	"os"
 	"path/filepath"
+	"strconv"
 
 	"github.com/thomasjungblut/go-sstables/recordio"
 	rProto "github.com/thomasjungblut/go-sstables/recordio/proto"
@@ -38,18 +38,19 @@ type sstReader struct {
 }
 
 type sstCase struct {
-	Writes  []sstWrite  `json:"writes"`
-	Writer  string      `json:"writer"` // stream | skiplist
-	DComp   int         `json:"dcomp"`
-	IComp   int         `json:"icomp"`
-	Bloom   bool        `json:"bloom"`
-	BloomN  uint64      `json:"bloomn"`
-	BloomFP float64     `json:"bloomfp"` // > 0: BloomFalsePositiveProbability
-	WBuf    int         `json:"wbuf"`
-	Readers []sstReader `json:"readers"`
-	Probes  []int       `json:"probes"` // ranks probed with Contains / Get / ScanStartingAt
-	Ranges  [][2]int    `json:"ranges"` // (lo, hi) pairs probed with ScanRange
-	Cmp     string      `json:"cmp"`    // "" (bytes) | "nocase": writer and readers use the case-insensitive comparator
+	Writes  []sstWrite     `json:"writes"`
+	Writer  string         `json:"writer"` // stream | skiplist
+	DComp   int            `json:"dcomp"`
+	IComp   int            `json:"icomp"`
+	Bloom   bool           `json:"bloom"`
+	BloomN  uint64         `json:"bloomn"`
+	BloomFP float64        `json:"bloomfp"` // > 0: BloomFalsePositiveProbability
+	WBuf    int            `json:"wbuf"`
+	Readers []sstReader    `json:"readers"`
+	Probes  []int          `json:"probes"` // ranks probed with Contains / Get / ScanStartingAt
+	Ranges  [][2]int       `json:"ranges"` // (lo, hi) pairs probed with ScanRange
+	Cmp     string         `json:"cmp"`    // "" (bytes) | "nocase": writer and readers use the case-insensitive comparator
+	V0      bool           `json:"v0"`     // rewrite the table in the legacy (version 0) layout before it is read (tables without nil / empty values, no faults)
 	KeyLen  map[string]int `json:"keylen"` // rank -> length: the key of that rank is padded with zero bytes to this length (keeps the rank order)
 }
 
@@ -290,6 +291,23 @@ func runSST(args []string) error {
 				closeErr = err.Error()
 			}
 		}
+		isV0 := false
+		if c.V0 && closeErr == "" && len(c.Writes) > 0 {
+			plain := true
+			var rows [][2]any
+			for _, w := range c.Writes {
+				if w.V == "NIL" || w.V == "EMPTY" || w.Fault != "" || (len(rows) > 0 && int(rows[len(rows)-1][0].(float64)) >= w.K) {
+					plain = false
+				}
+				rows = append(rows, [2]any{float64(w.K), w.V})
+			}
+			if plain {
+				if err := rewriteAsV0(dir, rows, keys, vb); err != nil {
+					return fmt.Errorf("writing v0 table: %w", err)
+				}
+				isV0 = true
+			}
+		}
 		fsize := func(n string) int {
 			st, err := os.Stat(filepath.Join(dir, n))
 			if err != nil {
@@ -332,7 +350,7 @@ func runSST(args []string) error {
 			}
 			rd, err := openReaderSafe(ropts...)
 			if err != nil {
-				tr.emit(M{"t": "reader", "i": ri, "cfg": rc, "err": err.Error(), "closeErr": closeErr, "meta": M{"n": -1, "nulls": -1, "min": -1, "max": -1, "sizesOk": false}})
+				tr.emit(M{"t": "reader", "i": ri, "cfg": rc, "err": err.Error(), "closeErr": closeErr, "v0": isV0, "meta": M{"n": -1, "nulls": -1, "min": -1, "max": -1, "sizesOk": false}})
 				continue
 			}
 			md := rd.MetaData()
@@ -340,7 +358,7 @@ func runSST(args []string) error {
 			if md.NumRecords > 0 {
 				minr, maxr = rk(md.MinKey), rk(md.MaxKey)
 			}
-			tr.emit(M{"t": "reader", "i": ri, "cfg": rc, "err": "", "closeErr": closeErr,
+			tr.emit(M{"t": "reader", "i": ri, "cfg": rc, "err": "", "closeErr": closeErr, "v0": isV0,
 				"meta": M{"n": int(md.NumRecords), "nulls": int(md.NullValues), "min": minr, "max": maxr,
 					"sizesOk": int(md.DataBytes) == fsize(sstables.DataFileName) && int(md.IndexBytes) == fsize(sstables.IndexFileName) &&
 						md.TotalBytes == md.DataBytes+md.IndexBytes}})
